@@ -8,6 +8,7 @@ only thing shared between connections is the immutable handler.  A connection's
 observable behaviour is therefore a function of its own input.
 -/
 import VarlinkVerif.Model.Wire
+import VarlinkVerif.Model.UpgradedLoop
 
 namespace VV
 
@@ -30,6 +31,14 @@ def ListenWorker.run (c : Consts) (svc : Service) (dec : Bytes → Frame) (reads
   | .err => { out := h.groups.flatten, upgraded := none, handedOver := [], closedByError := true }
   | .upgraded i =>
     { out := h.groups.flatten, upgraded := some i, handedOver := h.tail ++ h.rest.flatten, closedByError := false }
+
+/-- The same worker after the switch, with the upgraded handler's behaviour made explicit: `handle()` is called
+    again and again on `chain(unread, reader)`; `tail` is what `handle` had buffered behind the upgrading
+    request, `rest` the segments the socket still delivers.  Returns what the handler processed, call by call,
+    and what it was left with when the peer was done. -/
+def ListenWorker.upgradedPhase (p : UpPolicy) (tail : Bytes) (rest : List Bytes) : List Bytes × Bytes :=
+  let r := p.loop (rest.length + 2) tail rest
+  (r.1, r.2.1)
 
 /-! ### many connections -/
 
